@@ -7,6 +7,7 @@ import DriverOps.Copy
 import DriverOps.Curves
 import DriverOps.Views
 import DriverOps.Channel
+import DriverOps.DataWrite
 /-
 Line protocol: one JSON request per line on stdin, one JSON answer per line on stdout.
 The driver only (de)serialises; every answer is computed by the definitions in `LasioModel`,
@@ -31,6 +32,7 @@ def handle (j : Json) : Except String Json := do
     | some "cv" => handleCurves op j
     | some "vw" => handleViews op j
     | some "ch" => handleChannel op j
+    | some "dw" => handleDataWrite op j
     | _ => throw s!"unknown op {op}"
 
 partial def loop (hin hout : IO.FS.Stream) : IO Unit := do
